@@ -1,4 +1,4 @@
-import FpgoVerif.Proofs.C10Log
+import FpgoVerif.Proofs.C10Map
 import FpgoVerif.Gen.Skeletons
 import FpgoVerif.Gen.C10Facts
 /-! Property theorems for C10 — "Publisher delivers each value exactly once per live subscription, in
@@ -17,26 +17,10 @@ import FpgoVerif.Gen.C10Facts
     subscription order, so `<` on ids is subscription order. -/
 namespace FpgoVerif.C10
 
-theorem reach_of_run (grow : Nat → Nat) (acts : List Act) :
-    ∀ s0 s, Reach grow s0 → run true grow s0 acts = some s → Reach grow s := by
-  induction acts with
-  | nil => intro s0 s r h; simp [run] at h; exact h ▸ r
-  | cons a as ih =>
-    intro s0 s r h
-    simp only [run] at h
-    cases hs : step true grow s0 a with
-    | none => rw [hs] at h; cases h
-    | some s1 => rw [hs] at h; exact ih s1 s (Reach.step a r hs) h
-
 /-- the driver's executions are `Reach`able: running any action list with `step true` from `init` -/
 theorem C10_run_reach (grow : Nat → Nat) (acts : List Act) (s : State)
     (h : run true grow init acts = some s) : Reach grow s :=
   reach_of_run grow acts init s .init h
-
-theorem count_of_sorted {l : List Nat} (h : l.Pairwise (· < ·)) (x : Nat) :
-    l.count x = if x ∈ l then 1 else 0 := by
-  have hnd : l.Nodup := h.imp (fun hab => Nat.ne_of_lt hab)
-  exact hnd.count
 
 /-- **Key lemma**: while a Publish is running, the cells its snapshot header denotes are never
     overwritten — `append` writes only at index ≥ the snapshot length or into a fresh array, the
@@ -168,6 +152,60 @@ theorem C10_map_partial (grow : Nat → Nat) (s : State) (hr : Reach grow s) (r 
     have hp : e.1 = r.f.pid := (of_decide_eq_true hm.2).1
     have := hval e hm.1 hp
     simp [this]
+
+/-- **C10_map_compose** — Map(fn) as a system of two publishers (`MapSys`, `Proofs/C10Map.lean`): origin `P`, derived
+    publisher `Q`, every action of either one a `step true` of that publisher (so `P` and `Q` are `Reach`able and all
+    theorems above hold for both), plus the coupling of `Map`: each delivery of `P` to the forwarding subscription `x`
+    obliges its callback to begin `Q.Publish(fn v)` (`fwdBegin`, at any later moment, in any order).  For every reachable
+    state and every finished `P.Publish(v)` (call `r`) with `x` registered before the call and still registered at its end:
+    (1) there is exactly ONE forward for (that call, v): still owed by the running callback (`pend`) or begun (`fwd`);
+    (2) the begun forwards are pairwise distinct Publish calls of `Q`, each begun with the value `fn v` of its origin
+        delivery, and when such a call has finished, what it delivered is exactly its snapshot of `Q`'s subscriptions
+        (minus those without OnNext), every delivery carrying `fn v` — i.e. `C10_once` for the derived publisher.
+    What remains outside Lean: that the callback of `x` is `next.Publish(fn(in))` and nothing else (closing theorem
+    `C10_skel_Map`), and that it is the goroutine running the callback that begins the forward (the system lets any
+    goroutine do it: an over-approximation). -/
+theorem C10_map_compose (grow : Nat → Nat) (fn : Int → Int) (m : MapSys) (hm : MReach grow fn m)
+    (r : PubRec) (hmem : r ∈ m.P.ended) (h0 : 0 < m.x) (hbefore : m.x < r.f.n0) (hstill : m.x ∈ r.regEnd)
+    (hfn : m.P.silent m.x = false) :
+    (m.pend ++ m.fwd.map (fun e => (e.1, e.2.1))).count (r.f.pid, r.f.val) = 1 ∧
+    (m.fwd.map (fun e => e.2.2)).Nodup ∧
+    (∀ e ∈ m.fwd, e.2.2 < m.Q.nextPid ∧
+      (∀ u f, .pub f ∈ m.Q.stacks u → f.pid = e.2.2 → f.val = fn e.2.1) ∧
+      (∀ rq ∈ m.Q.ended, rq.f.pid = e.2.2 →
+        rq.f.val = fn e.2.1 ∧
+        dlOf m.Q.log rq.f.pid = rq.f.snap.filter (fun y => !m.Q.silent y) ∧
+        (∀ ev ∈ m.Q.log, ev.1 = rq.f.pid → ev.2.2.1 = fn e.2.1))) := by
+  have inv := MInv_reach hm
+  refine ⟨?_, inv.qnd, fun e he => ⟨inv.qlt e he, inv.qlive e he, fun rq hrq hpid => ?_⟩⟩
+  · rw [← inv.perm.count_eq, count_xlog]
+    have := C10_map_partial grow m.P inv.rp r hmem m.x h0 hbefore hstill hfn
+    rw [this]; simp
+  · have hv := inv.qfin e he rq hrq hpid
+    refine ⟨hv, (C10_once_log grow m.Q inv.rq rq hrq).1, fun ev hev hp => ?_⟩
+    rw [← hv]; exact (PInv_reach grow inv.rq).finV rq hrq ev hev hp
+
+/-- S subscribes to P, Map (fn = (· + 1)), a subscriber on Q; P.Publish(7): the forwarder's delivery is forwarded as
+    Q.Publish(8), which delivers 8 to Q's subscriber; both calls finish -/
+def mapWitness : List MAct :=
+  [.p (.subscribe 0), .map 0, .q (.subscribe 0), .p (.pubBegin 0 7), .p (.deliver 0), .p (.cbReturn 0),
+   .p (.deliver 0), .fwdBegin 0 0 7, .q (.deliver 0), .q (.cbReturn 0), .q (.pubEnd 0), .p (.cbReturn 0), .p (.pubEnd 0)]
+
+/-- non-vacuity of `C10_map_compose` (evaluated by the kernel): forwarding subscription x = 2, nothing pending, one forward
+    (P's call 0, value 7, Q's call 0), Q's finished call published 8 to its subscriber 1, Q's log has that one delivery -/
+theorem C10_witness_map :
+    msummary (mrun goGrow (· + 1) MapSys.init mapWitness) =
+      some (2, [], [(0, 7, 0)], [(8, [1])], [(0, 1, 8, false)]) := by rfl
+
+example : ∃ m, MReach goGrow (· + 1) m ∧ m.x = 2 ∧ m.fwd = [(0, 7, 0)] ∧ m.Q.log = [(0, 1, 8, false)] := by
+  cases hrun : mrun goGrow (· + 1) MapSys.init mapWitness with
+  | none => have := C10_witness_map; rw [hrun] at this; cases this
+  | some m =>
+    refine ⟨m, mreach_of_run goGrow _ _ _ m .init hrun, ?_⟩
+    have hw := C10_witness_map
+    rw [hrun] at hw
+    simp [msummary] at hw
+    exact ⟨hw.1, hw.2.2.1, hw.2.2.2.2⟩
 
 /-- **C10_handler** — with SubscribeOn(h) a delivery is exactly one Post (the `deliver` step appends the
     subscription to `f.dl` and the triple to `posted`/`mailbox` in one step, so `C10_once` counts Posts), and
